@@ -268,7 +268,7 @@ func runC13(c *Ctx) {
 		n := 0
 		for _, w := range p.Index().Writers("pokerface.Status.CurrentWager") {
 			n++
-			if w == mover {
+			if w == mover || c.moverFamily(mover)[w] {
 				continue
 			}
 			s := newSumm(p, 0)
@@ -294,7 +294,7 @@ func runC13(c *Ctx) {
 		for _, ps := range paths {
 			emits := false
 			for _, e := range ps.Events {
-				if e.Kind == "call" && e.Fn == eg.Emit {
+				if e.Kind == "call" && e.Fn != nil && (e.Fn == eg.Emit || eg.MayEmit[e.Fn]) {
 					emits = true
 				}
 			}
@@ -380,6 +380,77 @@ func hasDirectWrite(fi *FnInfo, key string) bool {
 // whose body calls the per-seat method on the element, and the list producer returns every
 // player (a counting loop of length GetPlayerCount appending one player per iteration).
 func loopsOverAllPlayers(c *Ctx, fn *ssa.Function, method string) bool {
+	if loopsOverAllPlayersVia(c, fn, method, nil) {
+		return true
+	}
+	// the loop may live in a package-private helper that is handed the per-seat method as a
+	// function value (a method expression or a closure that calls it on its argument)
+	for _, b := range fn.Blocks {
+		for _, in := range b.Instrs {
+			call, ok := in.(ssa.CallInstruction)
+			if !ok {
+				continue
+			}
+			h := call.Common().StaticCallee()
+			if h == nil || !privateHelper(fn, h) {
+				continue
+			}
+			for i, a := range call.Common().Args {
+				fv, ok := a.(*ssa.Function)
+				if !ok || i >= len(h.Params) {
+					continue
+				}
+				if !isMethodValueOf(fv, method) {
+					continue
+				}
+				if loopsOverAllPlayersVia(c, h, "", h.Params[i]) {
+					return true
+				}
+			}
+		}
+	}
+	return false
+}
+
+// isMethodValueOf: fv is the thunk of the method expression T.method, or a function whose every
+// return is the result of calling method on its first parameter.
+func isMethodValueOf(fv *ssa.Function, method string) bool {
+	if strings.Contains(fv.Name(), ")."+method+"$") || strings.HasSuffix(fv.Name(), ")."+method) {
+		return true
+	}
+	if len(fv.Blocks) == 0 || len(fv.Params) == 0 {
+		return false
+	}
+	n := 0
+	for _, b := range fv.Blocks {
+		r, ok := b.Instrs[len(b.Instrs)-1].(*ssa.Return)
+		if !ok {
+			continue
+		}
+		n++
+		if len(r.Results) != 1 {
+			return false
+		}
+		call, ok := r.Results[0].(*ssa.Call)
+		if !ok {
+			return false
+		}
+		cc := call.Common()
+		name := ""
+		var recv ssa.Value
+		if cc.IsInvoke() {
+			name, recv = cc.Method.Name(), cc.Value
+		} else if f := cc.StaticCallee(); f != nil && len(cc.Args) > 0 {
+			name, recv = f.Name(), cc.Args[0]
+		}
+		if name != method || recv != ssa.Value(fv.Params[len(fv.Params)-1]) && recv != ssa.Value(fv.Params[0]) {
+			return false
+		}
+	}
+	return n > 0
+}
+
+func loopsOverAllPlayersVia(c *Ctx, fn *ssa.Function, method string, fnParam *ssa.Parameter) bool {
 	s := newSumm(c.P, 0)
 	for _, l := range s.loops(fn) {
 		ri := analyseRange(l)
@@ -411,8 +482,14 @@ func loopsOverAllPlayers(c *Ctx, fn *ssa.Function, method string) bool {
 		for _, ps := range body {
 			calls := false
 			for _, e := range ps.Events {
-				if e.Kind == "call" && strings.HasSuffix(e.Callee, ")."+method) {
+				if method != "" && e.Kind == "call" && strings.HasSuffix(e.Callee, ")."+method) {
 					calls = true
+				}
+				if fnParam != nil && e.Kind == "call" && e.Fn == nil {
+					// a call through the function parameter, on the element
+					if ci, isCall := e.Instr.(ssa.CallInstruction); isCall && ci.Common().Value == ssa.Value(fnParam) {
+						calls = true
+					}
 				}
 			}
 			if !calls {
@@ -451,11 +528,91 @@ func runC13TableAgreement(c *Ctx) {
 			}
 		}
 	}
+	var body []*PathSum
+	cut := ""
+	predicate := false
 	if target == nil {
-		c.bad("table-engine-agreement", fnKey(hs), p.FnPos(hs), "no loop testing HasPosition: the table does not select the seats that must post blinds")
-		return
+		// second form: the selection is a loop-free predicate (gs, player) -> bool handed, as a
+		// function value, to a helper that waits on the seats it accepts
+		var pred *ssa.Function
+		for _, b := range hs.Blocks {
+			for _, in := range b.Instrs {
+				call, ok := in.(ssa.CallInstruction)
+				if !ok {
+					continue
+				}
+				for _, a := range call.Common().Args {
+					var fv *ssa.Function
+					switch x := a.(type) {
+					case *ssa.Function:
+						fv = x
+					case *ssa.MakeClosure:
+						fv, _ = x.Fn.(*ssa.Function)
+					}
+					if fv == nil || fv.Blocks == nil || len(findLoops(fv)) > 0 {
+						continue
+					}
+					countHP := func(g *ssa.Function) (int, *ssa.Function) {
+						n := 0
+						var only *ssa.Function
+						for _, fb := range g.Blocks {
+							for _, fin := range fb.Instrs {
+								if fc, ok := fin.(*ssa.Call); ok {
+									if f := fc.Common().StaticCallee(); f != nil {
+										if f.Name() == "HasPosition" {
+											n++
+										} else if inModule(f) {
+											only = f
+										}
+									}
+								}
+							}
+						}
+						return n, only
+					}
+					n, inner := countHP(fv)
+					target := fv
+					if n < 3 && inner != nil && inner.Blocks != nil && len(findLoops(inner)) == 0 && len(fv.Blocks) == 1 {
+						// a closure that only hands its argument to the predicate
+						if n2, _ := countHP(inner); n2 >= 3 {
+							n, target = n2, inner
+						}
+					}
+					if n >= 3 {
+						h := call.Common().StaticCallee()
+						if h != nil && waitsOnAccepted(p, h, call.Common().Args, a) {
+							pred = target
+						}
+					}
+				}
+			}
+		}
+		if pred == nil {
+			c.bad("table-engine-agreement", fnKey(hs), p.FnPos(hs), "no loop testing HasPosition: the table does not select the seats that must post blinds")
+			return
+		}
+		c.touch(fnKey(pred))
+		ps2 := newSumm(p, 0)
+		ps2.EngineAliases = false
+		raw, cut2 := ps2.Function(pred)
+		cut = cut2
+		// a row that returns its last test as a value is two rows: the test holds / does not hold
+		for _, r := range raw {
+			if len(r.Ret) == 1 && r.Ret[0].String() != "true" && r.Ret[0].String() != "false" {
+				for _, neg := range []bool{false, true} {
+					cp := *r
+					cp.Conds = append(append([]Cond(nil), r.Conds...), Cond{V: &Val{K: KAtom, At: &Atom{Op: "b", L: r.Ret[0].String()}, Neg: neg}})
+					cp.Ret = []*Val{{K: KConst, S: map[bool]string{false: "true", true: "false"}[neg]}}
+					body = append(body, &cp)
+				}
+				continue
+			}
+			body = append(body, r)
+		}
+		predicate = true
+	} else {
+		body, cut = s.LoopBody(hs, target)
 	}
-	body, cut := s.LoopBody(hs, target)
 	if cut != "" {
 		c.undecided("table-engine-agreement", fnKey(hs), p.FnPos(hs), "loop body summary cut: "+cut)
 		return
@@ -490,6 +647,13 @@ func runC13TableAgreement(c *Ctx) {
 				waits = true
 			}
 		}
+		if predicate {
+			waits = len(row.Ret) == 1 && row.Ret[0].String() == "true"
+			if len(row.Ret) != 1 || (row.Ret[0].String() != "true" && row.Ret[0].String() != "false") {
+				viol = append(viol, "the selecting predicate does not return a constant on a row: "+row.CondString())
+				return false
+			}
+		}
 		charged := (a.I[tBB] > 0 && a.B[bBB]) || (a.I[tSB] > 0 && a.B[bSB]) || (a.I[tD] > 0 && a.B[bD])
 		if waits != charged && len(viol) < 4 {
 			viol = append(viol, fmt.Sprintf("table waits=%v but engine charges=%v for {%s}", waits, charged, a.String()))
@@ -498,4 +662,59 @@ func runC13TableAgreement(c *Ctx) {
 	})
 	c.Sites += n
 	c.check(len(viol) == 0, "table-engine-agreement", fnKey(hs), p.FnPos(hs), fmt.Sprintf("the table waits on exactly the seats the engine charges a blind (%d states)", n), "table and engine disagree on who posts a blind", viol...)
+}
+
+// waitsOnAccepted: helper h, called with args among which is the predicate fv, has a full loop over
+// the players in which the ready group's Add is reached exactly on the rows where the function
+// parameter that stands for fv said yes.
+func waitsOnAccepted(p *Prog, h *ssa.Function, args []ssa.Value, fv ssa.Value) bool {
+	if h == nil || h.Blocks == nil {
+		return false
+	}
+	var prm *ssa.Parameter
+	for i, a := range args {
+		if a == fv && i < len(h.Params) {
+			prm = h.Params[i]
+		}
+	}
+	if prm == nil {
+		return false
+	}
+	s := newSumm(p, 0)
+	s.EngineAliases = false
+	for _, l := range s.loops(h) {
+		ri := analyseRange(l)
+		if !ri.Full || len(l.Exits) != 1 {
+			continue
+		}
+		body, cut := s.LoopBody(h, l)
+		if cut != "" || len(body) == 0 {
+			continue
+		}
+		ok, seen := true, false
+		for _, row := range body {
+			adds := false
+			for _, e := range row.Events {
+				if e.Kind == "call" && strings.HasSuffix(e.Callee, ".Add") {
+					adds = true
+				}
+			}
+			yes := hasCond(row, func(v *Val) bool {
+				return v.K == KAtom && v.At.Op == "b" && !v.Neg && strings.HasPrefix(v.At.L, "dynamic:"+prm.Name()+"(")
+			})
+			no := hasCond(row, func(v *Val) bool {
+				return v.K == KAtom && v.At.Op == "b" && v.Neg && strings.HasPrefix(v.At.L, "dynamic:"+prm.Name()+"(")
+			})
+			if yes || no {
+				seen = true
+			}
+			if adds != yes || row.End != "continue" {
+				ok = false
+			}
+		}
+		if ok && seen {
+			return true
+		}
+	}
+	return false
 }
